@@ -36,13 +36,17 @@ func newGoStructObject(value reflect.Value) *goStructObject {
 
 func (o goStructObject) getValue(name string) reflect.Value {
 	if idx := fieldIndexByName(reflect.Indirect(o.value).Type(), name); len(idx) > 0 {
-		return reflect.Indirect(o.value).FieldByIndex(idx)
+		// A field promoted through a nil embedded pointer does not exist.
+		field, _ := reflect.Indirect(o.value).FieldByIndexErr(idx)
+		return field
 	}
 
 	if validGoStructName(name) {
 		// Do not reveal hidden or unexported fields.
-		if field := reflect.Indirect(o.value).FieldByName(name); field.IsValid() {
-			return field
+		if sf, ok := reflect.Indirect(o.value).Type().FieldByName(name); ok {
+			if field, err := reflect.Indirect(o.value).FieldByIndexErr(sf.Index); err == nil {
+				return field
+			}
 		}
 
 		if method := o.value.MethodByName(name); method.IsValid() {
